@@ -68,9 +68,15 @@ type WalletState struct {
 	Openings []string
 }
 
+var walletKey = func() *btcec.PrivateKey {
+	k, _ := btcec.PrivKeyFromBytes(bytes.Repeat([]byte{0x42}, 32))
+	return k
+}()
+
+// NewWalletState: the wallet key is a process-wide constant (it never takes
+// part in a swap script; saves a scalar multiplication per execution).
 func NewWalletState() *WalletState {
-	k, _ := btcec.NewPrivateKey()
-	return &WalletState{Addrs: map[string]bool{}, Key: k, Labels: map[string]string{}}
+	return &WalletState{Addrs: map[string]bool{}, Key: walletKey, Labels: map[string]string{}}
 }
 
 func (s *SimWallet) isBtc() bool { return s.chain.Name == "btc" }
